@@ -123,3 +123,80 @@ def _allowed_use(node: ast.AST, par: Optional[ast.AST], parents: dict[int, ast.A
     if isinstance(par, ast.keyword) and par.arg in SEP_ATTRS:
         return 'forwarded by keyword to a callee that obeys the same rule'
     return ''
+
+
+def rule_sep_fresh(ctx: RuleContext, p: Program, rid: str) -> None:
+    ctx.rule(rid, 'every copy of the separator tokens is inserted at most once: the result of copy.deepcopy(<separators>) is either used '
+                  'where it is made, or bound to a name that is read exactly once and not inside a loop that the copy was made outside of '
+                  '(one token object cannot stand at two places of a store: its handle names only one of them)')
+    n = 0
+    for m in p.modules.values():
+        if '.models' not in m.name and not m.name.endswith('models'):
+            continue
+        for fn in p.functions_in(m):
+            if fn.kind == 'overload':
+                continue
+            parents = _parents(fn.node)
+            for c in walk_no_nested(fn.node):
+                if not (isinstance(c, ast.Call) and (dotted(c.func) or '') in ('copy.deepcopy', 'deepcopy') and c.args
+                        and any(_is_sep_ref(x, set()) for x in ast.walk(c.args[0]))):
+                    continue
+                n += 1
+                site = f'{m.name.split(".", 1)[1]}:{fn.qualname}'
+                par = parents.get(id(c))
+                if not (isinstance(par, ast.Assign) and par.value is c and len(par.targets) == 1 and isinstance(par.targets[0], ast.Name)):
+                    ctx.ok(rid, f'{site}: {norm(c)[:60]}', 'used where it is made')
+                    continue
+                name = par.targets[0].id
+
+                def loops_around(node: ast.AST) -> list[ast.AST]:
+                    out = []
+                    x = parents.get(id(node))
+                    while x is not None and x is not fn.node:
+                        if isinstance(x, (ast.For, ast.While, ast.ListComp, ast.GeneratorExp, ast.SetComp, ast.DictComp)):
+                            out.append(x)
+                        x = parents.get(id(x))
+                    return out
+                def_loops = {id(l) for l in loops_around(par)}
+                loads = [x for x in walk_no_nested(fn.node) if isinstance(x, ast.Name) and x.id == name and isinstance(x.ctx, ast.Load)]
+                in_outer_loop = [x for x in loads if any(id(l) not in def_loops for l in loops_around(x))]
+                # several reads are fine when they sit on exclusive branches; keep it simple and exact for the idioms met: count reads
+                bad = ''
+                if in_outer_loop:
+                    bad = f'`{name} = {norm(c)[:50]}` is made once, outside the loop, and read inside it ({norm(parents.get(id(in_outer_loop[0]), in_outer_loop[0]))[:60]})'
+                elif len(loads) > 1 and not _exclusive(loads, parents, fn):
+                    bad = f'`{name} = {norm(c)[:50]}` is read {len(loads)} times'
+                ctx.check(not bad, rid, site, f'{name} = {norm(c)[:60]}',
+                          f'{bad}: the same separator token objects are inserted once per item, so a store holds one object at several places; '
+                          f'its handle names the last one, and removing or replacing an earlier neighbour then cuts the wrong span',
+                          f'{m.relpath}:{c.lineno}', note='bound copy read once')
+    if n < 5:
+        raise AnalysisError(f'SEP-FRESH: only {n} separator copies found (>= 5 confirmed by hand)')
+
+
+def _exclusive(loads: list[ast.AST], parents: dict[int, ast.AST], fn: FuncInfo) -> bool:
+    """are all reads on pairwise exclusive branches of if/else (or IfExp)?"""
+    def branch_path(node: ast.AST) -> list[tuple[int, str]]:
+        out = []
+        child = node
+        x = parents.get(id(node))
+        while x is not None and x is not fn.node:
+            if isinstance(x, ast.If):
+                if any(child is s for s in x.body):
+                    out.append((id(x), 'body'))
+                elif any(child is s for s in x.orelse):
+                    out.append((id(x), 'else'))
+            elif isinstance(x, ast.IfExp):
+                if child is x.body:
+                    out.append((id(x), 'body'))
+                elif child is x.orelse:
+                    out.append((id(x), 'else'))
+            child = x
+            x = parents.get(id(x))
+        return out
+    paths = [dict(branch_path(l)) for l in loads]
+    for i in range(len(paths)):
+        for j in range(i + 1, len(paths)):
+            if not any(k in paths[j] and paths[j][k] != v for k, v in paths[i].items()):
+                return False
+    return True
